@@ -955,3 +955,35 @@ Proof.
   - intros [] a; unfold balf; simpl; apply nonnegb_getd; assumption.
   - intros [] o sp; unfold allowf; simpl; apply nonnegb_getd; assumption.
 Qed.
+
+(** * The witness rule: signers or the immediate caller, nothing deeper in the call stack *)
+Lemma check_witness_iff : forall c a,
+  check_witness c a = true <-> In a (signers c) \/ caller c = Some a.
+Proof.
+  intros c a. unfold check_witness. rewrite orb_true_iff, existsb_exists. split.
+  - intros [(x & Hin & E)|H].
+    + apply addr_eqb_spec in E. subst. auto.
+    + destruct (caller c) as [x|]; [|discriminate]. apply addr_eqb_spec in H. subst. auto.
+  - intros [H|H].
+    + left. exists a. split; [assumption|apply addr_eqb_refl].
+    + right. rewrite H. apply addr_eqb_refl.
+Qed.
+
+Lemma last_opt_app : forall l x, last_opt (l ++ [x]) = Some x.
+Proof.
+  induction l as [|y r IH]; intros x; simpl; [reflexivity|].
+  rewrite IH. destruct (r ++ [x]) eqn:E; [destruct r; discriminate|reflexivity].
+Qed.
+
+(** A contract further down the stack (an indirect caller) that did not sign is not a witness. *)
+Lemma indirect_caller_not_witness : forall sg below a b now pe v2 w,
+  ~ In a sg -> a <> b ->
+  check_witness (mkCtx sg (below ++ [a; b]) now pe v2 w) a = false.
+Proof.
+  intros sg below a b now pe v2 w Hn Hab.
+  destruct (check_witness _ a) eqn:E; [|reflexivity]. exfalso.
+  apply check_witness_iff in E. simpl in E. destruct E as [E|E]; [contradiction|].
+  unfold caller in E. simpl in E.
+  replace (below ++ [a; b]) with ((below ++ [a]) ++ [b]) in E by (rewrite <- app_assoc; reflexivity).
+  rewrite last_opt_app in E. congruence.
+Qed.
